@@ -159,6 +159,11 @@ func faultsFor(fc *FieldCase) []dataFault {
 		add("primitive where an object is expected", p+"."+fc.Keys[0], uint64(5), p+"."+fc.Keys[0])
 	}
 	switch fc.F.Kind {
+	case KSInt, KSVInt, KPSInt, KSStr, KSUStr, KA2, KPA2, KSStruct, KAStruct, KSSVInt, KSUCfg, KSMap:
+		// (a primitive is a list of one entry; an object with named settings is no list)
+		add("object where a list is expected", p, obj, p)
+	}
+	switch fc.F.Kind {
 	case KDInt:
 		if _, ok := fc.In.(map[string]interface{})["a"]; ok {
 			add("wrong type in a nested setting", p+".a", "zz", p+".a")
